@@ -21,7 +21,7 @@ type progAlphabet struct {
 	macro  bool     // Concat([i,j],0).Slice([{1,3}])
 }
 
-var fullAlphabet = progAlphabet{scales: []float64{2, 0}, unary: []string{"Sin", "Exp"}, sym: []string{"Add", "Mul"}, asym: []string{"Sub"}, macro: true}
+var fullAlphabet = progAlphabet{scales: []float64{2, 0}, unary: []string{"Sin", "Exp", "Pow2"}, sym: []string{"Add", "Mul"}, asym: []string{"Sub"}, macro: true}
 var smallAlphabet = progAlphabet{scales: []float64{2}, sym: []string{"Add", "Mul"}}
 
 // enumPrograms calls f for every straight-line program with 1..maxOps
@@ -57,7 +57,11 @@ func enumPrograms(leaves []*ref.T, tracked []bool, a progAlphabet, maxOps int, f
 				push(fmt.Sprintf("Sc%g(%d)", s, i), []ref.Node{{Op: ref.Op{K: "Scale", F: s}, In: []int{i}}}, next, nOps)
 			}
 			for _, k := range a.unary {
-				push(fmt.Sprintf("%s(%d)", k, i), []ref.Node{{Op: ref.Op{K: k}, In: []int{i}}}, next, nOps)
+				op := ref.Op{K: k}
+				if k == "Pow2" {
+					op = ref.Op{K: "Pow", F: 2}
+				}
+				push(fmt.Sprintf("%s(%d)", k, i), []ref.Node{{Op: op, In: []int{i}}}, next, nOps)
 			}
 		}
 		for x, i := range cur {
@@ -348,6 +352,66 @@ func checkC01(c *core.Ctx) {
 				return c01Single(c, copyProgram(q), root)
 			})
 		})
+	}
+	// (1c) mixed ranks without real expansion: leaves [3], [1,3], [1,1,3];
+	// every program of <= 3 operations over {Add, Mul, Sub (right-aligned
+	// broadcasting that only adds leading size-1 dimensions), Scale,
+	// Reshape([3]), UnSqueeze(0), SumAlong(0) of a leading size-1 dimension}
+	mixedLeaves := func() []*ref.T {
+		return []*ref.T{enum.Generic([]int{3}, 311, 0.4, 1.3, true), enum.Generic([]int{1, 3}, 312, 0.4, 1.3, true), enum.Generic([]int{1, 1, 3}, 313, 0.4, 1.3, true)}
+	}
+	mixOps := 3
+	var mixRec func(p *ref.Program, shapes [][]int, code string, n int)
+	mixRec = func(p *ref.Program, shapes [][]int, code string, n int) {
+		if n > 0 {
+			root := p.NTensors() - 1
+			q := copyProgram(p)
+			c.Case("mixed/"+code, true, func() core.Verdict {
+				v := gradCase(copyProgram(q), root, gradOpts{})
+				if !v.OK && !v.Skip {
+					v.Detail = describeProgram(q) + " :: " + v.Detail
+				}
+				return v
+			})
+		}
+		if n == mixOps || c.Expired() {
+			return
+		}
+		k := p.NTensors()
+		try := func(op ref.Op, in ...int) {
+			ish := make([][]int, len(in))
+			for i, id := range in {
+				ish[i] = shapes[id]
+			}
+			sh, ok := ref.ResultShape(op, ish)
+			if !ok || ref.Size(sh) != 3 {
+				return
+			}
+			p.Nodes = append(p.Nodes, ref.Node{Op: op, In: in})
+			mixRec(p, append(shapes, sh), fmt.Sprintf("%s;%s%v", code, op, in), n+1)
+			p.Nodes = p.Nodes[:len(p.Nodes)-1]
+		}
+		for i := 0; i < k; i++ {
+			try(ref.Op{K: "Scale", F: 2}, i)
+			try(ref.Op{K: "Reshape", Shape: []int{3}}, i)
+			try(ref.Op{K: "UnSqueeze", Dim: 0}, i)
+			if len(shapes[i]) >= 2 {
+				try(ref.Op{K: "SumAlong", Dim: 0}, i)
+			}
+			for j := 0; j < k; j++ {
+				if len(shapes[i]) == len(shapes[j]) && i > j {
+					continue // same-rank pairs once (j >= i); different ranks in both orders
+				}
+				for _, kind := range []string{"Add", "Mul", "Sub"} {
+					try(ref.Op{K: kind}, i, j)
+				}
+			}
+		}
+	}
+	{
+		ml := mixedLeaves()
+		p := &ref.Program{Leaves: ml, Tracked: []bool{true, true, true}}
+		mixRec(p, [][]int{{3}, {1, 3}, {1, 1, 3}}, "", 0)
 	}
 	// (2) leaves as roots
 	for mi, mask := range c01Masks {
